@@ -101,9 +101,12 @@ def build(t):
 def impl_render(w, width):
     """[0, lines] | [1] ValueError | [9, repr] other exception."""
     try:
-        w.render(width)
+        with lib.time_limit(20):
+            w.render(width)
     except ValueError:
         return [1]
+    except lib.Hang:
+        return [9, "does-not-terminate(20s)"]
     except Exception as e:   # noqa
         return [9, type(e).__name__]
     return [0, [cps(l) for l in w.get_lines()]]
